@@ -1,0 +1,19 @@
+//go:build verif
+
+package tsi
+
+import "time"
+
+// Hook for the C14 verification harness (/verif): add-only, compiled only with -tags verif.
+
+// VerifShiftTime moves the time range of the index builder by d. time.Now cannot be injected,
+// so the harness lets the clock "tick" by dt by moving every time range of the store and of
+// the catalogue by -dt: Expired / ExpiredCache / IsTierExpired only look at endTime - now.
+func (iBuilder *IndexBuilder) VerifShiftTime(d time.Duration) {
+	iBuilder.startTime = iBuilder.startTime.Add(d)
+	iBuilder.endTime = iBuilder.endTime.Add(d)
+	if iBuilder.ident != nil && iBuilder.ident.Index != nil {
+		iBuilder.ident.Index.TimeRange.StartTime = iBuilder.ident.Index.TimeRange.StartTime.Add(d)
+		iBuilder.ident.Index.TimeRange.EndTime = iBuilder.ident.Index.TimeRange.EndTime.Add(d)
+	}
+}
